@@ -407,6 +407,7 @@ pub fn check_main(prop: &Property, tier: Tier) -> i32 {
     let mut wall_hit_cases = 0u64;
     let mut pruned_cases = 0u64;
     let mut largest: (u64, String) = (0, String::new());
+    let mut sizes: Vec<(u64, String)> = vec![];
     let mut single_outcome_multi_schedule = 0u64;
     let mut samples: Vec<Value> = vec![];
     let mut viols: BTreeMap<String, (u64, Value)> = BTreeMap::new();
@@ -435,6 +436,7 @@ pub fn check_main(prop: &Property, tier: Tier) -> i32 {
         if r["pruned"].as_bool().unwrap_or(false) {
             pruned_cases += 1;
         }
+        sizes.push((g(r, "schedules"), r["desc"].as_str().unwrap_or("").to_string()));
         if g(r, "schedules") > largest.0 {
             largest = (g(r, "schedules"), r["desc"].as_str().unwrap_or("").to_string());
         }
@@ -515,6 +517,8 @@ pub fn check_main(prop: &Property, tier: Tier) -> i32 {
     let mut assumptions: Vec<String> = prop.assumptions.iter().map(|s| s.to_string()).collect();
     assumptions.push("a step is one poll of one task; interleavings inside a poll are not explored (DESIGN.md §7)".into());
     assumptions.push("trusted base: rustc, the controlled executor/explorer (self-tested), runtime shims in src/verif.rs, the futures-util / futures-timer seam patches, harness actors and oracles".into());
+    sizes.sort();
+    let largest_cases: Vec<Value> = sizes.iter().rev().take(8).map(|(n, d)| json!({"schedules": n, "desc": d})).collect();
     let evidence = json!({
         "property_id": prop.id,
         "tier": tier.name(),
@@ -541,6 +545,7 @@ pub fn check_main(prop: &Property, tier: Tier) -> i32 {
             "replayed_steps": replayed,
             "determinism_reruns": reruns,
             "largest_case": {"schedules": largest.0, "desc": largest.1},
+            "largest_cases": largest_cases,
             "vacuity_warning_cases_single_outcome": single_outcome_multi_schedule,
             "caps_hit": caps,
             "known_findings_reproduced": known_hits,
